@@ -197,6 +197,8 @@ def gen_dataset_case(rng, confirm, i):
         cat_mode = "same"
     elif rng.random() < 0.3:
         cat_mode = "grow"              # label sets that grow from file to file (each a prefix of the next): must work
+    elif rng.random() < 0.25:
+        cat_mode = "unused"            # dictionaries that differ only in labels no row uses: inside the proved guard, must work
     grow_sizes = sorted(rng.choice([2, 3, 5, 100, 127, 128, 130, 200, 300]) for _ in range(k))
     files = []
     off = 0
@@ -221,11 +223,14 @@ def gen_dataset_case(rng, confirm, i):
             cats = ["p", "q", "r"]
         elif cat_mode == "grow":
             cats = ["l%03d" % x for x in range(grow_sizes[j])]
+        elif cat_mode == "unused":
+            cats = ["p", "q"] + rng.sample(["r", "s", "t", "u"], rng.choice([0, 1, 2]))
         else:
             cats = None
         files.append({"dir": d, "name": name, "n": n, "off": off, "codec": rng.choice([None, None, "GZIP", "SNAPPY", "ZSTD"]),
                       # "each": one row group per row - a footer much larger than the first file's (second fetch of the fast path)
-                      "rgo": rng.choice([None, None, 2, "each"]) if n > 2 else None, "cats": cats, "objbool": objbool})
+                      "rgo": rng.choice([None, None, 2, "each"]) if n > 2 else None, "cats": cats, "objbool": objbool,
+                      "used": 2 if cat_mode == "unused" else None})
         off += n + 1
     if shape in ("hive", "drill") and rng.random() < 0.5:
         root_mode = "given"
@@ -253,7 +258,7 @@ def _frame(spec, bad=False):
          "v": np.array([(x * 0.5 if x % 3 else float("nan")) for x in range(off, off + n)], dtype="float64"),
          "s": pd.Series(["r%d" % x for x in range(off, off + n)], dtype="str")}
     if spec["cats"]:
-        m = len(spec["cats"])       # low and high codes alike
+        m = spec.get("used") or len(spec["cats"])       # low and high codes alike
         d["c"] = pd.Categorical.from_codes([((m - 1 - x) if x % 2 else x) % m for x in range(n)], categories=spec["cats"])
     if spec.get("objbool"):
         d["b"] = np.array([bool(x % 2) for x in range(n)] + [None], dtype=object)[:-1]
@@ -349,7 +354,7 @@ def check_dataset(case, root, pq, ctx=None, verbose=False):
 
     cls0 = {"shape": shape, "relative": bool(case.get("relative")), "categorical": case["cat_mode"],
             "object_column_first_file_empty": objbool,
-            "dictionaries_differ": case["cat_mode"] in ("differ", "grow") and len({tuple(f["cats"]) for f in case["files"]}) > 1}
+            "dictionaries_differ": case["cat_mode"] in ("differ", "grow", "unused") and len({tuple(f["cats"]) for f in case["files"]}) > 1}
 
     def nested(order):
         """every file's label list is a prefix of the label list of the last file that has rows (in this order):
@@ -357,9 +362,29 @@ def check_dataset(case, root, pq, ctx=None, verbose=False):
         cl = [case["files"][j]["cats"] for j in order if case["files"][j]["n"] > 0 and case["files"][j]["cats"]]
         return bool(cl) and all(c == cl[-1][:len(c)] for c in cl)
 
+    label_ids = {}
+
+    def cat_chunks(order):
+        """the categorical column of the files in this order as chunks of Dataset/CatRead.v: (own dictionary, codes); one chunk
+        per file (all row groups of a file carry the file's dictionary); files without rows have no dictionary page"""
+        chunks = []
+        for j in order:
+            s = singles[j]["c"]
+            if len(s) == 0:
+                continue
+            d = [label_ids.setdefault(str(x), len(label_ids)) for x in s.cat.categories]
+            chunks.append([[d], [int(c) for c in s.cat.codes]])
+        return chunks
+
     def compare(via, fn, order, base_dir, **kw):
         vias.append(via)
         cls = dict(cls0, via=via, dictionaries_nested=nested(order))
+        chunks = None
+        if "c" in cols and case["bad_schema"] is None:
+            # the EXACT guard of C14_categorical_labels_partial / _guard_exact, decided by the extracted Dataset/CatGuard.guard_b:
+            # every code that occurs means the same label under its own dictionary and under the dictionary read last
+            chunks = cat_chunks(order)
+            cls["cat_guard"] = pq.call("cat_guard", [], chunks) == 1
         try:
             pf = fn()
             df = pf.to_pandas()
@@ -378,6 +403,18 @@ def check_dataset(case, root, pq, ctx=None, verbose=False):
         if case["bad_schema"] is not None:
             return pf           # different dtypes without verification: outside the statement
         nrows = sum(len(singles[j]) for j in order)
+        if chunks is not None and ctx is not None and "c" in df.columns and len(df) == nrows:
+            # model of the reader (one label list for the whole column, replaced by every dictionary page) = what was read
+            try:
+                mcats = [str(x) for x in df["c"].cat.categories]
+                impl = [[] if c < 0 else ([label_ids.setdefault(mcats[c], len(label_ids))] if c < len(mcats) else ["bad", int(c)])
+                        for c in (int(x) for x in df["c"].cat.codes.to_numpy())]
+            except Exception as e:      # noqa
+                impl = "raises %s" % type(e).__name__
+            mo = pq.call("read_cat", [], chunks)
+            model = [[("bad" if isinstance(x, (bytes, bytearray)) else x) for x in cell] for cell in mo] if isinstance(mo, list) else mo
+            ctx.correspondence("CatRead.read_cat(per-file dictionaries and codes) ~ categorical column of the merged read",
+                               dict(_replayable(case), via=via), model, impl)
         try:        # the row-group iterator of the merged handle walks the same rows in the same order
             it_ids = [int(x) for fr in pf.iter_row_groups(columns=["id"]) for x in fr["id"]]
             if it_ids != [int(x) for x in df["id"]]:
